@@ -9,7 +9,6 @@ import (
 	"strings"
 	"sync"
 	"sync/atomic"
-	"time"
 
 	"verif/harness/vk"
 	"verif/harness/vsrv"
@@ -192,7 +191,7 @@ func exclusion(a api, batch uint64, idx int) {
 						run.Count("password_writes", 1)
 					}
 				} else {
-					keys := []any{map[string]any{"kty": "oct", "alg": "HS256", "k": "c2VjcmV0LXNlY3JldC1zZWNyZXQ", "kid": "k" + strings.Repeat("x", n)}}
+					keys := []any{map[string]any{"kty": "oct", "alg": "HS256", "k": "MDEyMzQ1Njc4OWFiY2RlZjAxMjM0NTY3ODlhYmNkZWY", "kid": "k" + strings.Repeat("x", n)}}
 					vs.add("keys", keys)
 					b, _ := json.Marshal(map[string]any{"keys": keys})
 					if st, _, _, err := a.do("PUT", apiRoot+g+"/.keys", map[string]string{"Content-Type": "application/jwk-set+json"}, b); err == nil && ok2xx(st) {
@@ -242,7 +241,8 @@ func exclusion(a api, batch uint64, idx int) {
 	}
 	count := map[string]int{}
 	var order []string
-	for _, w := range strings.Fields(comment)[1:] {
+	words := strings.Fields(comment)
+	for _, w := range words[min(1, len(words)):] {
 		count[w]++
 		order = append(order, w)
 	}
